@@ -319,3 +319,20 @@ mut("c14-child-index-off", "C14", "bellows/ezsp/v10/__init__.py", "             
 mut("c14-link-key-partner-lost-v13", "C14", "bellows/ezsp/v13/__init__.py", "                partner_ieee=eui64,\n", "")
 mut("c14-v4-children-read-as-v7", "C14", "bellows/ezsp/v7/__init__.py", "            yield rsp.id, rsp.eui64, rsp.type", "            yield rsp.id, rsp.eui64, rsp.type\n            return", checks=["C14"])
 mut("c14-hashed-flag-on-v4", "C14", APP, "        use_hashed_tclk = ezsp.ezsp_version > 4", "        use_hashed_tclk = ezsp.ezsp_version >= 4")
+
+# ---- C20 -------------------------------------------------------------------------------
+TH = "bellows/thread.py"
+mut("c20-loop-comparison-inverted", "C20", TH, "            if loop == curr_loop:\n                return call()", "            if loop != curr_loop:\n                return call()")
+mut("c20-closed-check-removed", "C20", TH,
+    "            if loop.is_closed():\n                # Disconnected\n                LOGGER.warning(\"Attempted to use a closed event loop\")\n                return\n", "")
+mut("c20-coroutine-detection-broken", "C20", TH, "            if asyncio.iscoroutinefunction(func):", "            if asyncio.iscoroutine(func):")
+mut("c20-plain-call-run-inline", "C20", TH,
+    "                loop.call_soon_threadsafe(check_result_wrapper)", "                check_result_wrapper()")
+mut("c20-non-callable-allowed", "C20", TH,
+    "        if not callable(func):\n            raise TypeError(", "        if False:\n            raise TypeError(")
+mut("c20-result-future-not-wrapped", "C20", TH,
+    "                return asyncio.wrap_future(future, loop=curr_loop)", "                return asyncio.wrap_future(future, loop=loop)")
+mut("c20-plain-call-scheduled-twice", "C20", TH,
+    "                loop.call_soon_threadsafe(check_result_wrapper)", "                loop.call_soon_threadsafe(check_result_wrapper)\n                loop.call_soon_threadsafe(check_result_wrapper)")
+mut("c20-plain-value-returned-to-caller", "C20", TH,
+    "                loop.call_soon_threadsafe(check_result_wrapper)", "                loop.call_soon_threadsafe(check_result_wrapper)\n                return 0")
